@@ -70,6 +70,11 @@ impl<T: ?Sized> Mutex<T> {
     pub fn lock(&self) -> LockResult<MutexGuard<'_, T>> {
         kernel::point();
         self.acquire();
+        // Holding a lock across no scheduling point of its own cannot be observed by threads that `lock()` (they would
+        // simply have waited), but it can by `try_lock()`.  When the library under test contains a `try_lock` call
+        // (build.sh looks), a holder can be preempted right after acquiring, so that "busy" outcomes exist.
+        #[cfg(verif_preempt_lock_holders)]
+        kernel::point();
         self.guard()
     }
 
@@ -79,6 +84,8 @@ impl<T: ?Sized> Mutex<T> {
             return Err(TryLockError::WouldBlock);
         }
         self.locked.set(true);
+        #[cfg(verif_preempt_lock_holders)]
+        kernel::point();
         match self.guard() {
             Ok(g) => Ok(g),
             Err(e) => Err(TryLockError::Poisoned(e)),
